@@ -143,6 +143,12 @@ def atom_text(node: ast.AST, ren: Optional[Dict[str, str]] = None) -> str:
             return ren.get(full, full)
         return f"{atom_text(node.value, ren)}.{node.attr}"
     if isinstance(node, ast.Subscript):
+        # A[i, :][j]  ==  A[i, j]   (row view then column index)
+        inner = node.value
+        if isinstance(inner, ast.Subscript) and not isinstance(node.slice, (ast.Tuple, ast.Slice)):
+            isl = inner.slice
+            if isinstance(isl, ast.Tuple) and len(isl.elts) == 2 and isinstance(isl.elts[1], ast.Slice) and isl.elts[1].lower is None and isl.elts[1].upper is None and isl.elts[1].step is None and not isinstance(isl.elts[0], ast.Slice):
+                return f"{atom_text(inner.value, ren)}[({canon(isl.elts[0], ren)}, {canon(node.slice, ren)})]"
         return f"{atom_text(node.value, ren)}[{canon(node.slice, ren)}]"
     if isinstance(node, ast.Slice):
         return ":".join(canon(x, ren) if x is not None else "" for x in (node.lower, node.upper, node.step))
